@@ -545,6 +545,64 @@ def rebuilt_base(ctx, rng):
             return
 
 
+def rebase_with_failing_generation(ctx, rng):
+    """A verifying registry is re-based onto a registry whose change counter is computed and cannot be read at that moment
+    (the assignment fails after the bases have been stored).  From then on the registry consults its new chain: what is
+    registered there later shows, what the old chain holds does not."""
+    from zope.interface.adapter import VerifyingAdapterRegistry as V
+    mod = util.fresh_module()
+    IR, IP = util.mkiface('IR', module=mod), util.mkiface('IP', module=mod)
+
+    class Flaky(V):
+        fail = False
+
+        @property
+        def _generation(self):
+            if Flaky.fail:
+                Flaky.fail = False
+                raise RuntimeError('state cannot be loaded right now')
+            return self.__dict__.get('_g', 0)
+
+        @_generation.setter
+        def _generation(self, v):
+            self.__dict__['_g'] = v
+    old_top, new_top = V(), Flaky()
+    mid = V((old_top,))
+    low = V((mid,))
+    v_old, v_new = Val(1, 1, True), Val(2, 2, True)
+    old_top.register([IR], IP, '', v_old)
+    if low.lookup([IR], IP, '') is not v_old:
+        return
+    target = rng.choice([mid, low])
+    Flaky.fail = True
+    try:
+        target.__bases__ = (new_top,)
+        raised = False
+    except RuntimeError:
+        raised = True
+    Flaky.fail = False
+    ctx.count('rebasings_with_a_failing_generation_read[%s]' % ('raised' if raised else 'passed'))
+    if tuple(target.__bases__) != (new_top,):
+        return                       # (the assignment did not take place at all: nothing to say)
+    new_top.register([IR], IP, '', v_new)
+    new_top.subscribe([IR], IP, v_new)
+    ctx.ev(2)
+    got = (low.lookup([IR], IP, ''), tuple(low.subscriptions([IR], IP)), dict(low.lookupAll([IR], IP)).get(''))
+    if got[0] is not v_new or got[1] != (v_new,) or got[2] is not v_new:
+        ctx.violation('chain-lookup-wrong', {'after': 're-basing %s onto a registry whose generation could not be read' %
+                                             ('the middle' if target is mid else 'the bottom'), 'got': repr(got), 'expected': repr(v_new)}, abort=False)
+        return
+    # ... and keeps noticing what changes there (these answers are cached by now)
+    v_newer = Val(3, 3, True)
+    new_top.register([IR], IP, '', v_newer)
+    new_top.unsubscribe([IR], IP, v_new)
+    ctx.ev(2)
+    got = (low.lookup([IR], IP, ''), tuple(low.subscriptions([IR], IP)), dict(low.lookupAll([IR], IP)).get(''))
+    if got[0] is not v_newer or got[1] != () or got[2] is not v_newer:
+        ctx.violation('chain-lookup-wrong', {'after': 'a later change in the registry the %s was re-based onto while its generation could not be read' %
+                                             ('middle' if target is mid else 'bottom'), 'got': repr(got), 'expected': repr(v_newer)}, abort=False)
+
+
 def run_c07(ctx, rng, job):
     if ctx.case % 4 == 0:
         rebuilt_base(ctx, rng)
@@ -1043,6 +1101,33 @@ def run_c09(ctx, rng, job):
             ctx.op('rebuild', ri)
             w.regs[ri].rebuild()
             ctx.count('rebuilds')
+        if rng.random() < 0.06:
+            # a registered value whose finalizer cleans up after it: when it goes (here: when it is unregistered and
+            # nobody else holds it) it removes the entry next to it.  Whenever exactly the finalizer runs, both entries
+            # are gone afterwards and everything else is as before.
+            reg = w.regs[ri]
+            req_, prov_, _n = w.rand_key(ar=rng.choice([1, 1, 2]))
+            nreq_ = w.norm(req_)
+            if not any(k_[0] == nreq_ and k_[1] is prov_ for k_ in w.adapters[ri]):
+                class Cleaner:
+                    def __init__(self):
+                        self.calls = []
+
+                    def __del__(self):
+                        reg.unregister(req_, prov_, 'sibling')
+                v_sib = w.newval()
+                reg.register(req_, prov_, 'cleaner', Cleaner())
+                reg.register(req_, prov_, 'sibling', v_sib)
+                ctx.op('unregister-with-a-cleaning-finalizer', ri, nm(req_), nm(prov_))
+                try:
+                    reg.unregister(req_, prov_, 'cleaner')
+                except Exception as e:
+                    ctx.violation('unregister-raised', {'registry': ri, 'error': repr(e)[:200]})
+                gc.collect()
+                ctx.ev()
+                ctx.count('unregistrations_with_a_cleaning_finalizer')
+                if reg.registered(req_, prov_, 'cleaner') is not None or reg.registered(req_, prov_, 'sibling') is not None:
+                    ctx.violation('registered-mismatch', {'registry': ri, 'after': 'unregistering a value whose finalizer removes its sibling'})
         kinds.append(op)
         # ---- after every step: bookkeeping equals the ledger -------------------
         for rr, reg in enumerate(w.regs):
@@ -1470,6 +1555,8 @@ def run_c05(ctx, rng, job):
 def run_c06(ctx, rng, job):
     if ctx.case % 4 == 0:
         rebuilt_base(ctx, rng)
+    if ctx.case % 4 == 1:
+        rebase_with_failing_generation(ctx, rng)
     w = RW(ctx, rng, job['tier'], with_objs=False, maxregs=5, chainy=True)
     big = job['tier'] == 'thorough'
     n = len(w.regs)
